@@ -488,6 +488,192 @@ def judge_foreign(f):
     return fails
 
 
+# ------------------------------------------------------------------ document-level stream (no model)
+#
+# The chart core has integer variables only.  Values of other kinds -- strings (empty, numeric-looking), booleans,
+# nil, tables (array, map, nested, empty) -- are exercised by hand-shaped documents: one variable per document, an
+# event per value that assigns it, and a continuation that logs the variable and its type, branches on it in a cond
+# and sends it as a <param> of an event whose payload is logged.  Every macrostep boundary is a snapshot point; the
+# oracle is the implementation against itself: ORIG == RES token by token and equal final values.
+
+def xesc(s):
+    return s.replace('&', '&amp;').replace('<', '&lt;').replace('"', '&quot;')
+
+
+# (id, kind of the initial value, initialiser or None)
+LUA_VARS = [('vs', 'string', "'draft'"), ('vn', 'number', '7'), ('vb', 'boolean', 'true'), ('vt', 'array', '{1,2,3}'),
+            ('vm', 'nested-table', "{a={b=1},c='x'}"), ('vd', 'numeric-string', "'42'"), ('ve', 'empty-string', "''"), ('vu', 'unset', None)]
+# (kind, Lua expression); 'initial' and 'other-type' are filled in per variable
+LUA_VALUES = [('empty-string', "''"), ('empty-table', '{}'), ('zero', '0'), ('false', 'false'), ('nil', 'nil'), ('string-zero', "'0'"),
+              ('initial', None), ('other-type', None), ('float', '1.5'), ('negative', '-3'), ('big-integer', '9007199254740993'),
+              ('string-nil', "'nil'"), ('string-true', "'true'"), ('string-braces', "'{}'"), ('string-float', "'1.0'"), ('string-space', "' '"),
+              ('string-quote', "'a\"b'"), ('map', '{x=1}'), ('array-of-strings', "{'a','b'}"), ('mixed-table', '{1,x=2}'),
+              ('empty-table-inside', '{a={}}'), ('empty-table-inside', '{{},1}'), ('nil-in-array', '{1,nil,3}')]
+PML_VARS = [('pi', 'int', '5'), ('pb', 'bool', 'true'), ('pz', 'int', '0'), ('py', 'byte', '3')]
+PML_VALUES = [('zero', '0'), ('false', 'false'), ('one', '1'), ('true', 'true'), ('initial', None), ('sum', '(2+3)')]
+
+
+def doc_values(dm, var):
+    vid, vkind, init = var
+    out = []
+    for kind, e in (LUA_VALUES if dm == 'lua' else PML_VALUES):
+        if kind == 'initial':
+            e = init if init is not None else 'nil'
+        elif kind == 'other-type':
+            e = '5' if vkind in ('string', 'numeric-string', 'empty-string') else "'other'"
+        out.append((kind, e))
+    return out
+
+
+def document(dm, vars_, only_value=None):
+    """one state; per variable: set.<id>.<n> assigns the n-th value, chk.<id> branches on it, snd.<id> sends it;
+    show logs every variable (Lua: and its type)"""
+    s = '<?xml version="1.0"?><scxml xmlns="http://www.w3.org/2005/07/scxml" version="1.0" datamodel="%s" name="m"><datamodel>' % dm
+    for vid, vkind, init in vars_:
+        if dm == 'lua':
+            s += '<data id="%s"%s/>' % (vid, (' expr="%s"' % xesc(init)) if init is not None else '')
+        else:
+            s += '<data id="%s" type="%s" expr="%s"/>' % (vid, vkind, init)
+    s += '</datamodel><state id="s1">'
+    for var in vars_:
+        vid = var[0]
+        for n, (kind, e) in enumerate(doc_values(dm, var)):
+            if only_value is None or only_value == n:
+                s += '<transition event="set.%s.%d"><assign location="%s" expr="%s"/></transition>' % (vid, n, vid, xesc(e))
+        if dm == 'lua':
+            cnd = "(%s == nil) or (%s == '') or (%s == 0) or (%s == false) or (type(%s) == 'table' and next(%s) == nil)" % ((vid,) * 6)
+            s += '<transition event="chk.%s" cond="%s"><log label="chk" expr="\'emptyish\'"/></transition>' % (vid, xesc(cnd))
+            s += '<transition event="chk.%s"><log label="chk" expr="\'other\'"/></transition>' % vid
+        else:
+            s += '<transition event="chk.%s" cond="%s == 0"><log label="chk" expr="0"/></transition>' % (vid, vid)
+            s += '<transition event="chk.%s"><log label="chk" expr="1"/></transition>' % vid
+        s += '<transition event="snd.%s"><send event="got"><param name="p" expr="%s"/></send></transition>' % (vid, vid)
+    s += '<transition event="got"><log label="got" expr="_event.data.p"/></transition><transition event="show">'
+    for vid, vkind, init in vars_:
+        s += '<log label="%s" expr="%s"/>' % (vid, vid)
+        if dm == 'lua':
+            s += '<log label="type.%s" expr="type(%s)"/>' % (vid, vid)
+    return s + '</transition></state></scxml>'
+
+
+def doc_line(eng, xml, k, hist):
+    return 'serialize-resume-doc %s %s %d %d %s' % (eng, xml.encode('latin-1').hex(), FUEL, k, ' '.join(h.encode().hex() for h in hist))
+
+
+def build_doc_cases():
+    """(datamodel, variables of the document, variable under test, index of the value, kind of the value, history)"""
+    cases = []
+    for dm, vars_ in (('lua', LUA_VARS), ('promela', PML_VARS)):
+        for var in vars_:
+            for n, (kind, e) in enumerate(doc_values(dm, var)):
+                cases.append({'dm': dm, 'vars': [var], 'var': var, 'n': n, 'kind': kind, 'expr': e,
+                              'hist': ['set.%s.%d' % (var[0], n), 'show', 'chk.%s' % var[0], 'snd.%s' % var[0]]})
+        # all variables in one document: the value of one is changed, every one is looked at afterwards
+        for var in vars_:
+            for n, (kind, e) in enumerate(doc_values(dm, var)):
+                if kind in ('empty-string', 'empty-table', 'nil', 'false', 'zero', 'initial'):
+                    cases.append({'dm': dm, 'vars': list(vars_), 'var': var, 'n': n, 'kind': kind, 'expr': e,
+                                  'hist': ['set.%s.%d' % (var[0], n), 'show'] + ['chk.%s' % v[0] for v in vars_] + ['snd.%s' % var[0]]})
+    return cases
+
+
+def doc_data(s):
+    d = {}
+    for kv in (s or '').split():
+        k, _, v = kv.partition('=')
+        if _:
+            try:
+                d[k] = bytes.fromhex(v).decode('latin-1') if v not in ('ERR', '-') else v
+            except ValueError:
+                d[k] = v
+    return d
+
+
+def doc_readable(tokens):
+    out = []
+    for t in tokens.split():
+        if t.startswith('LOG:'):
+            out.append('LOG<%s>' % (bytes.fromhex(t[4:]).decode('latin-1') if t[4:] != '-' else ''))
+        elif t.startswith('EV:'):
+            out.append('EV<%s>' % bytes.fromhex(t[3:]).decode('latin-1'))
+        elif t.startswith('RET:') or t == 'STABLE':
+            out.append(t)
+    return ' '.join(out)
+
+
+def judge_doc(case, f):
+    """failure classes of one snapshot/continuation pair of the document stream"""
+    assigned = ('EV:' + case['hist'][0].encode().hex()) in f.get('PRE', '').split()
+    kind = case['kind'] if assigned else 'initial:' + case['var'][1]
+    if 'SERFAIL' in f:
+        return ['serialize-throws:' + kind]
+    if 'DESERFAIL' in f:
+        return ['deserialize-throws:' + kind]
+    if 'RES' not in f or 'ORIG' not in f:
+        return ['no-output']
+    od, rd = doc_data(f.get('OD')), doc_data(f.get('RD'))
+    if toks(f['ORIG']) == toks(f['RES']) and od == rd:
+        return []
+    bad = [v for v in od if od.get(v) != rd.get(v)]
+    if not bad or case['var'][0] in bad:
+        return ['data-value-not-restored:' + kind]
+    kinds = dict((v[0], v[1]) for v in case['vars'])
+    return ['data-value-not-restored:initial:' + kinds.get(v, '?') for v in bad]
+
+
+def run_doc_stream(c, vd, engines):
+    """returns (classes: class -> list of (case, engine, k, fields, xml), number of pairs, distribution)"""
+    cases = build_doc_cases()
+    xmls = [document(x['dm'], x['vars']) for x in cases]
+    probe, pidx = [], []
+    for ci, x in enumerate(cases):
+        for eng in engines:
+            probe.append(doc_line(eng, xmls[ci], 9999, x['hist']))
+            pidx.append((ci, eng))
+    pouts, _ = run_robust(vd, probe)
+    pairs = []
+    for (ci, eng), o in zip(pidx, pouts):
+        if o.startswith('INTERMITTENT'):
+            o = o.split(' || ', 1)[1]
+        for k in range(fields(o).get('nb') or 0):
+            pairs.append((ci, eng, k))
+    outs, _ = run_robust(vd, [doc_line(eng, xmls[ci], k, cases[ci]['hist']) for ci, eng, k in pairs])
+    classes = {}
+    dist = {'pairs': len(pairs), 'documents': len(set(xmls)), 'by_datamodel': {}, 'by_value_kind_at_snapshot': {}}
+    for (ci, eng, k), o in zip(pairs, outs):
+        x = cases[ci]
+        if o.startswith('INTERMITTENT'):
+            o = o.split(' || ', 1)[1]
+        dist['by_datamodel'][x['dm']] = dist['by_datamodel'].get(x['dm'], 0) + 1
+        if o.startswith('CRASH') or o.startswith('EXC') or o.startswith('ERR'):
+            classes.setdefault('crash:' + x['kind'], []).append((x, eng, k, {}, xmls[ci]))
+            continue
+        f = fields(o)
+        assigned = ('EV:' + x['hist'][0].encode().hex()) in f.get('PRE', '').split()
+        kd = x['kind'] if assigned else 'initial:' + x['var'][1]
+        dist['by_value_kind_at_snapshot'][kd] = dist['by_value_kind_at_snapshot'].get(kd, 0) + 1
+        for cls in judge_doc(x, f):
+            classes.setdefault(cls, []).append((x, eng, k, f, xmls[ci]))
+    return classes, len(pairs), dist
+
+
+def minimal_doc_replay(vd, x, eng, k, f, xml):
+    """the smallest document that still shows the failure: only the variable under test and only the assigned value"""
+    small = document(x['dm'], [x['var']], only_value=x['n'])
+    hist = [x['hist'][0], 'show', 'chk.%s' % x['var'][0], 'snd.%s' % x['var'][0]]
+    try:
+        rc, o, _ = run_lines(vd, [doc_line(eng, small, 9999, hist)], timeout=60)
+        nb = fields(o[0]).get('nb') or 0
+        rc, outs, _ = run_lines(vd, [doc_line(eng, small, kk, hist) for kk in range(nb)], timeout=120)
+        for kk, o in enumerate(outs):
+            f2 = fields(o)
+            if judge_doc(dict(x, vars=[x['var']], hist=hist), f2):
+                return small, hist, kk, f2
+    except Exception:
+        pass
+    return xml, x['hist'], k, f
+
+
 # ------------------------------------------------------------------ the check
 
 def detect_switches(c, vd, corpus):
@@ -544,6 +730,7 @@ def run(c):
         'delayed sends use delays of 100 s and more: no timer fires on its own during a run; the tick input makes every pending timer due in due order (event_active on the timer objects of BasicDelayedEventQueue, nothing else is touched)',
         'Data::asJSON / Data::fromJSON transport the state string unchanged for the values occurring here (C15 covers the codec)',
         'a state index never exceeds 2^32 (strTo<uint32_t>), a bit array is shorter than 2^64 bits',
+        'document stream: the data values are compared as the datamodel prints them (evalAsData -> JSON text, <log> text); two values that print alike are not distinguished',
     ]
     sw, swnotes = detect_switches(c, vd, corpus)
     c.notes['defect_switches'] = swnotes
@@ -750,14 +937,22 @@ def run(c):
         elif toks(mf.get('U', '')) == toks(f.get('U', '')) and toks(mf.get('B', '')) != toks(f.get('B', '')):
             fdis.append((fi, 'B'))
 
-    c.cov['evaluations'] = len(pairs) + nfor
+    # document-level stream: values of every kind, implementation against itself
+    dclasses, ndoc, ddist = run_doc_stream(c, vd, engines)
+    c.cov['document_stream'] = dict(ddist, oracle_failures={k: len(v) for k, v in dclasses.items()})
+
+    c.cov['evaluations'] = len(pairs) + nfor + ndoc
     c.cov['distinct_nontrivial'] = len(nontriv)
     c.cov['rule'] = ('corpus witnesses + seeded random charts of tools/chartgen.py (classes: plain, forced history state, binding=late with an inner '
                      '<data>, delayed <send> with tick inputs, null datamodel) x one history of <= 4 inputs each; EVERY macrostep boundary of the '
                      'history (step() = MACROSTEPPED / IDLE / FINISHED) is a snapshot point; both engines; lua and promela; plus state strings given '
                      'to interpreters of other documents.  evaluations = snapshot/continuation pairs executed on the implementation (+ foreign '
                      'pairs); non-trivial = distinct (chart, history, k) with a recorded history value, initialised late data, a pending external '
-                     'or delayed event, or k > 1')
+                     'or delayed event, or k > 1.  Document stream (no model, implementation against itself): one Lua / Promela document per '
+                     'variable kind (string, number, boolean, array, nested table, numeric-looking string, empty string, unset; int, bool, byte) '
+                     'with an event per value kind that assigns it (empty string, empty table, 0, false, nil, "0", the initial value, a value of '
+                     'another type, float, big integer, strings that look like nil/true/{}/1.0, maps, tables with empty tables or nil inside) and a '
+                     'continuation that logs the variable and its type, branches on it and sends it as a payload; every boundary a snapshot point')
     hist['foreign_pairs'] = nfor
     hist['skipped_values_beyond_2^30'] = skipped_big
     hist['chart_core_disagreements_not_judged_here'] = core_disagree
@@ -803,7 +998,22 @@ def run(c):
             'expected': 'the string of the other document is rejected and the rejecting interpreter behaves as an untouched one',
             'observed_after_rejection': f.get('B', '')[:600], 'untouched': f.get('U', '')[:600], 'queues_after_rejection': f.get('BQ'),
             'explained_by_model_switch': cls in explained}, foreign=base[b]))
-    any_oracle = bool(classes) or bool(fclasses)
+    for cls, hits in sorted(dclasses.items()):
+        kf = c.match_known({'class': cls})
+        if kf:
+            c.known(kf['id'], kf['what'] + ' (%d snapshot points of the document stream this run)' % len(hits))
+            continue
+        x, eng, k, f, xml = sorted(hits, key=lambda h: (len(h[4]), h[2], h[1]))[0]
+        xml, dh, k, f = minimal_doc_replay(vd, x, eng, k, f, xml)
+        c.violation({'kind': 'oracle', 'class': cls, 'count': len(hits), 'stream': 'documents', 'engine': eng, 'datamodel': x['dm'],
+                     'variable': x['var'][0], 'initial_value': x['var'][2], 'assigned_value': x['expr'], 'history': dh, 'snapshot_point_k': k,
+                     'scxml': xml,
+                     'expected': 'the resumed interpreter continues exactly as the original: same trace (log output, cond, payload), same final values',
+                     'observed_original': doc_readable(f.get('ORIG', ''))[:900], 'observed_resumed': doc_readable(f.get('RES', ''))[:900] or str(f)[:600],
+                     'final_values_original': doc_data(f.get('OD')), 'final_values_resumed': doc_data(f.get('RD')),
+                     'state_string': bytes.fromhex(f['SNAP']).decode('latin-1')[:1500] if f.get('SNAP') and f['SNAP'] != '-' else None,
+                     'replay_cmd': "echo '%s' | /verif/.build/vdriver-hooks/vdriver" % doc_line(eng, xml, k, dh)})
+    any_oracle = bool(classes) or bool(fclasses) or bool(dclasses)
     if disagreements or fdis:
         if disagreements:
             pi, what = sorted(disagreements, key=lambda d: size_key(base[pairs[d[0]][0]], pairs[d[0]][2]))[0]
@@ -817,7 +1027,7 @@ def run(c):
             a, b, eng, k = fpairs[fi]
             c.violation(replay_payload(base[a], eng, k, {'kind': 'correspondence', 'field': 'foreign.' + what, 'count': len(fdis),
                                                          'model': fm[fi][:1500], 'observed': fouts[fi][:1500]}, foreign=base[b]), no_input=not any_oracle)
-    only_known = all(c.match_known({'class': k}) for k in list(classes) + list(fclasses))
+    only_known = all(c.match_known({'class': k}) for k in list(classes) + list(fclasses) + list(dclasses))
     if broken and (not any_oracle or only_known):
         for b in broken:
             c.violation({'kind': 'obligation', 'theorem': b['name'], 'why': b.get('why', '')}, no_input=True)
